@@ -1,6 +1,7 @@
 from __future__ import annotations
 
 import os
+import threading
 from typing import Any
 
 import duckdb
@@ -66,6 +67,10 @@ class FakeSnow:
         self.db_path = db_path
         self.nop_regexes = nop_regexes
 
+        # connects are serialised, so that a connection never finds a database that another
+        # connect has attached but not yet finished setting up
+        self._connect_lock = threading.Lock()
+
         self.duck_conn = duckdb.connect(database=":memory:")
 
         # create a "global" database for storing objects which span databases.
@@ -80,13 +85,14 @@ class FakeSnow:
         # https://github.com/duckdb/duckdb/blob/18254ec/tools/pythonpkg/src/pyconnection.cpp#L1440
         # and to make connections thread-safe see
         # https://duckdb.org/docs/api/python/overview.html#using-connections-in-parallel-python-programs
-        return fakes.FakeSnowflakeConnection(
-            self.duck_conn.cursor(),
-            database,
-            schema,
-            create_database=self.create_database_on_connect,
-            create_schema=self.create_schema_on_connect,
-            db_path=self.db_path,
-            nop_regexes=self.nop_regexes,
-            **kwargs,
-        )
+        with self._connect_lock:
+            return fakes.FakeSnowflakeConnection(
+                self.duck_conn.cursor(),
+                database,
+                schema,
+                create_database=self.create_database_on_connect,
+                create_schema=self.create_schema_on_connect,
+                db_path=self.db_path,
+                nop_regexes=self.nop_regexes,
+                **kwargs,
+            )
